@@ -160,6 +160,7 @@ struct Global
   const uint8_t *cur_data  = nullptr;
   size_t cur_size          = 0;
   const Case *cur_case     = nullptr;
+  bool in_case             = false;
   std::chrono::steady_clock::time_point t0 = std::chrono::steady_clock::now();
   bool dying = false;
 };
@@ -243,6 +244,7 @@ Outcome run_one(const Target &t, const uint8_t *d, size_t n)
   g.cur_data   = d;
   g.cur_size   = n;
   g.cur_case   = &c;
+  g.in_case    = true;
   Outcome o;
   try
   {
@@ -260,6 +262,7 @@ Outcome run_one(const Target &t, const uint8_t *d, size_t n)
   }
   g.cur_case = nullptr;
   g.cur_data = nullptr;
+  g.in_case  = false;
   o.desc     = c.desc;
 
   TargetStats &s = g.per_target[t.name];
@@ -450,9 +453,11 @@ static void on_death()
   if (g.dying)
     return;
   g.dying = true;
-  if (g.cur_target && g.cur_data && !g.crash_path.empty())
+  if (g.cur_target && g.in_case && !g.crash_path.empty())
   {
-    std::vector<uint8_t> b(g.cur_data, g.cur_data + g.cur_size);
+    std::vector<uint8_t> b;
+    if (g.cur_data)
+      b.assign(g.cur_data, g.cur_data + g.cur_size);
     std::string desc = g.cur_case ? g.cur_case->desc : std::string();
     write_replay_file(g.crash_path, g.cur_target->name, b,
                       "process died inside the case (sanitizer report / abort / assert); see stderr",
@@ -475,9 +480,11 @@ void fatal_failure(const std::string &msg)
   Global &g = G();
   g.dying   = true;
   std::string path = g.crash_path;
-  if (g.cur_target && g.cur_data)
+  if (g.cur_target && g.in_case)
   {
-    std::vector<uint8_t> b(g.cur_data, g.cur_data + g.cur_size);
+    std::vector<uint8_t> b;
+    if (g.cur_data)
+      b.assign(g.cur_data, g.cur_data + g.cur_size);
     std::string desc = g.cur_case ? g.cur_case->desc : std::string();
     if (path.empty())
       path = "fatal-replay.json";
